@@ -37,7 +37,7 @@ import (
 )
 
 type c19Setup struct {
-	K string `json:"k"` // acquire | release | expire | restart | releaseall | orphan (every lease that is no manager's current session expires)
+	K string `json:"k"` // acquire | produce (Acquire through handleProduce) | release | expire | expirelazy (R = partition of the observing call) | restart | releaseall | orphan (every lease that is no manager's current session expires)
 	B int    `json:"b"` // 0 = the handler's broker ("1"), 1 = the other broker ("2")
 	R int    `json:"r"` // index into c19Pool
 }
@@ -308,19 +308,6 @@ func c19Run(t *testing.T, endpoints []string, root *clientv3.Client, cs c19Case)
 	_, _ = root.Delete(ctx, metadata.PartitionLeasePrefix()+"/", clientv3.WithPrefix())
 	w.mgrs[0], w.mgrs[1] = w.newMgr(0), w.newMgr(1)
 	defer w.cleanup()
-	var setupEvs []string
-	for _, op := range cs.Setup {
-		if op.B < 0 || op.B > 1 || op.R < 0 || op.R >= len(c19Pool) {
-			continue
-		}
-		w.revoked = nil
-		w.setup(op)
-		setupEvs = append(setupEvs, c19CoqSetup(op)...)
-		for _, n := range w.revoked {
-			setupEvs = append(setupEvs, "OrphanExpire "+cqZ(int64(n)))
-		}
-	}
-
 	brokerInfo := protocol.MetadataBroker{NodeID: 1, Host: "localhost", Port: 19092}
 	clusterID := "verif"
 	inner := metadata.NewInMemoryStore(metadata.ClusterMetadata{ControllerID: 1, ClusterID: &clusterID, Brokers: []protocol.MetadataBroker{brokerInfo}})
@@ -394,12 +381,6 @@ func c19Run(t *testing.T, endpoints []string, root *clientv3.Client, cs c19Case)
 		}
 		return codes
 	}
-	ownedBefore := map[string]bool{} // by the other broker
-	for _, r := range c19Pool {
-		ownedBefore[r.rid()] = w.mgrs[1].Owns(r.topic, r.part)
-	}
-	var o c19Obs
-	o.setupEvs = setupEvs
 	fail, key := "", ""
 	setFail := func(k, f string) {
 		if fail == "" {
@@ -407,6 +388,127 @@ func c19Run(t *testing.T, endpoints []string, root *clientv3.Client, cs c19Case)
 		}
 	}
 	hdr := &protocol.RequestHeader{APIKey: 0, APIVersion: 3, CorrelationID: 7}
+	// does the handler's broker hold the lease of pool partition idx right now? (Owns, key present
+	// with its id on a lease of its current incarnation, no other owner)
+	holdsNow := func(idx int) (bool, string) {
+		r := c19Pool[idx]
+		owns, other := w.mgrs[0].Owns(r.topic, r.part), w.mgrs[1].Owns(r.topic, r.part)
+		val, onCurrent := "", false
+		gr, gerr := root.Get(ctx, metadata.PartitionLeasePrefix()+"/"+r.rid())
+		if gerr != nil {
+			t.Fatalf("etcd get: %v", gerr)
+		}
+		if len(gr.Kvs) > 0 {
+			val = string(gr.Kvs[0].Value)
+			if l, ok := w.mgrs[0].EtcdClient().Lease.(*c19Lease); ok {
+				c19Mu.Lock()
+				for _, id := range c19Current[l] {
+					if int64(id) == gr.Kvs[0].Lease {
+						onCurrent = true
+					}
+				}
+				c19Mu.Unlock()
+			}
+		}
+		return owns && val == "1" && onCurrent && !other,
+			fmt.Sprintf("Owns=%v, etcd owner=%q, key on a lease of the current incarnation=%v, other broker Owns=%v", owns, val, onCurrent, other)
+	}
+	// a produce for one pool partition through the handler, as part of the pre-state
+	produceOne := func(idx int) int16 {
+		r := c19Pool[idx]
+		req := kmsg.NewPtrProduceRequest()
+		req.Acks = -1
+		req.TimeoutMillis = 1000
+		rt := kmsg.NewProduceRequestTopic()
+		rt.Topic = r.topic
+		rp := kmsg.NewProduceRequestTopicPartition()
+		rp.Partition = r.part
+		rp.Records = testBatchBytes(nextBase[r.rid()], 0, 1)
+		nextBase[r.rid()]++
+		rt.Partitions = append(rt.Partitions, rp)
+		req.Topics = append(req.Topics, rt)
+		payload, perr := h.Handle(ctx, hdr, req)
+		if perr != nil {
+			t.Fatalf("Handle(produce): %v", perr)
+		}
+		code := decode(payload)[0][0]
+		if held, desc := holdsNow(idx); cs.Leasing && code == 0 && !held {
+			setFail("success-without-lease", fmt.Sprintf("pre-state produce to %s: code 0 but this broker does not hold the lease (%s)", r.rid(), desc))
+		}
+		return code
+	}
+	var setupEvs []string
+	for _, op := range cs.Setup {
+		if op.B < 0 || op.B > 1 || op.R < 0 || op.R >= len(c19Pool) {
+			continue
+		}
+		w.revoked = nil
+		r := c19Pool[op.R]
+		switch {
+		case op.K == "produce" && op.B == 0:
+			// Acquire reached through handleProduce (same model events as a direct Acquire)
+			produceOne(op.R)
+			if cs.Leasing {
+				setupEvs = append(setupEvs, c19CoqSetup(c19Setup{K: "acquire", B: 0, R: op.R})...)
+			}
+		case op.K == "produce":
+			op.K = "acquire"
+			w.setup(op)
+			setupEvs = append(setupEvs, c19CoqSetup(op)...)
+		case op.K == "expirelazy" && w.mgrs[op.B].VerifHasSession() && !w.mgrs[op.B].Owns(r.topic, r.part):
+			// session loss first noticed by getOrCreateSession: monitorSession is disabled for the
+			// session, the lease is revoked, the keep-alive ends, and the manager's next call is
+			// an Acquire of a partition it does not own -- through handleProduce for the handler
+			m := w.mgrs[op.B]
+			id, orphan, _ := m.VerifDetachMonitor()
+			if l, ok := m.EtcdClient().Lease.(*c19Lease); ok {
+				c19Mu.Lock()
+				delete(c19Current, l)
+				c19Mu.Unlock()
+			}
+			_, _ = root.Revoke(ctx, id)
+			orphan()
+			if op.B == 0 && cs.Leasing {
+				produceOne(op.R)
+			} else {
+				_ = m.Acquire(ctx, r.topic, r.part)
+			}
+			setupEvs = append(setupEvs, "SessionExpire "+cqStr(strconv.Itoa(op.B+1)))
+			setupEvs = append(setupEvs, c19CoqSetup(c19Setup{K: "acquire", B: op.B, R: op.R})...)
+		case op.K == "expirelazy":
+			op.K = "expire"
+			fallthrough
+		default:
+			w.setup(op)
+			if op.K == "restart" && op.B == 0 && cs.Leasing {
+				h.leaseManager = w.mgrs[0] // the restarted broker serves with its new manager
+			}
+			setupEvs = append(setupEvs, c19CoqSetup(op)...)
+		}
+		for _, n := range w.revoked {
+			setupEvs = append(setupEvs, "OrphanExpire "+cqZ(int64(n)))
+		}
+	}
+	// the main request starts from fresh PartitionLogs (restored from S3 on demand), so that
+	// entering the storage path is observable as the creation of a log
+	h.logMu.Lock()
+	h.logs = make(map[string]map[int32]*storage.PartitionLog)
+	h.logMu.Unlock()
+	writtenBefore := map[string]int{}
+	if objs, lerr := s3.ListSegments(ctx, ""); lerr == nil {
+		for _, ob := range objs {
+			parts := strings.Split(ob.Key, "/")
+			if len(parts) >= 4 {
+				writtenBefore[parts[len(parts)-3]+"/"+parts[len(parts)-2]]++
+			}
+		}
+	}
+	ownedBefore := map[string]bool{} // by the other broker
+	for _, r := range c19Pool {
+		ownedBefore[r.rid()] = w.mgrs[1].Owns(r.topic, r.part)
+	}
+	var o c19Obs
+	o.setupEvs = setupEvs
 	var payload []byte
 	var err error
 	midIdx := -1
@@ -506,7 +608,8 @@ func c19Run(t *testing.T, endpoints []string, root *clientv3.Client, cs c19Case)
 		var row []bool
 		for _, p := range tp.Parts {
 			_, ok := h.logs[tp.Topic][p.Part]
-			row = append(row, ok || written[fmt.Sprintf("%s/%d", tp.Topic, p.Part)] > 0)
+			k := fmt.Sprintf("%s/%d", tp.Topic, p.Part)
+			row = append(row, ok || written[k] > writtenBefore[k])
 		}
 		o.entered = append(o.entered, row)
 	}
@@ -625,10 +728,15 @@ func c19Gen(r *vRand) c19Case {
 		switch x := r.Intn(100); {
 		case x < 70:
 			op.K = "acquire"
+			if op.B == 0 && cs.Acks != 0 && r.Bool() {
+				op.K = "produce" // the Acquire is reached through handleProduce
+			}
 		case x < 80:
 			op.K = "release"
-		case x < 88:
+		case x < 85:
 			op.K = "expire"
+		case x < 88:
+			op.K = "expirelazy"
 		case x < 93:
 			op.K = "restart"
 		case x < 97:
@@ -639,7 +747,21 @@ func c19Gen(r *vRand) c19Case {
 		cs.Setup = append(cs.Setup, op)
 	}
 	var must *c19Res
-	if r.Chance(20) {
+	if cs.Acks != 0 && r.Chance(15) {
+		// lazy session loss: the handler's broker owns p (produce ok), loses its session, and the
+		// first code to notice is getOrCreateSession, reached by a produce for ANOTHER partition q;
+		// the other broker takes p over; then a produce for p arrives at the stale broker
+		p := r.Intn(3)
+		q := (p + 1 + r.Intn(2)) % 3
+		cs.Setup = append(cs.Setup, c19Setup{K: "produce", B: 0, R: p}, c19Setup{K: "expirelazy", B: 0, R: q})
+		if r.Chance(30) {
+			cs.Setup = append(cs.Setup, c19Setup{K: "orphan"})
+		}
+		if r.Chance(85) {
+			cs.Setup = append(cs.Setup, c19Setup{K: "acquire", B: 1, R: p})
+		}
+		must = &c19Pool[p]
+	} else if r.Chance(20) {
 		// restart (or session loss) -> the new incarnation takes its key over -> the OLD lease
 		// expires -> the other broker tries -> produce on this broker
 		b, res := r.Intn(2), r.Intn(3)
@@ -705,6 +827,11 @@ func c19Corpus() []c19Case {
 		{Leasing: true, EtcdAvail: true, S3: "healthy", Acks: -1,
 			Setup: []c19Setup{{K: "acquire", B: 0, R: 0}, {K: "restart", B: 0}, {K: "acquire", B: 0, R: 0}, {K: "orphan"}, {K: "acquire", B: 1, R: 0}},
 			Req:   []c19Topic{{Topic: "orders", Parts: ok(0)}}},
+		// lazy session loss noticed by a produce for another partition; the other broker takes the
+		// stale partition over; a produce for it must be refused
+		{Leasing: true, EtcdAvail: true, S3: "healthy", Acks: -1,
+			Setup: []c19Setup{{K: "produce", B: 0, R: 0}, {K: "expirelazy", B: 0, R: 2}, {K: "acquire", B: 1, R: 0}},
+			Req:   []c19Topic{{Topic: "orders", Parts: ok(0)}, {Topic: "events", Parts: ok(0)}}},
 		// the other broker's session expired: its partitions can be taken
 		{Leasing: true, EtcdAvail: true, S3: "healthy", Acks: 1,
 			Setup: []c19Setup{{K: "acquire", B: 1, R: 0}, {K: "acquire", B: 1, R: 2}, {K: "expire", B: 1}},
@@ -850,7 +977,7 @@ func c19GenMid(r *vRand) c19Case {
 }
 
 func TestVerifC19(t *testing.T) {
-	rep := vNewReport("C19", "generated produce requests (1-3 topic entries x 1-3 partition entries incl. duplicates, an ACL-denied topic, undecodable batches; acks -1/1/0) sent through the real handler whose PartitionLeaseManager shares an embedded etcd with a second broker, after a generated lease pre-state (0-7 acquire/release/expire/restart/ReleaseAll calls on both brokers); non-trivial = the request names at least one partition this broker ends up owning and at least one it does not; distinct = distinct cases")
+	rep := vNewReport("C19", "generated produce requests (1-3 topic entries x 1-3 partition entries incl. duplicates, an ACL-denied topic, undecodable batches; acks -1/1/0) sent through the real handler whose PartitionLeaseManager shares an embedded etcd with a second broker, after a generated lease pre-state (0-7 acquire (directly or through handleProduce) / release / expire (noticed by monitorSession or, lazily, by getOrCreateSession through a produce for another partition) / restart / ReleaseAll / orphan-lease-expiry steps on both brokers); non-trivial = the request names at least one partition this broker ends up owning and at least one it does not; distinct = distinct cases")
 	endpoints := testutil.StartEmbeddedEtcd(t)
 	root, err := clientv3.New(clientv3.Config{Endpoints: endpoints, DialTimeout: 5 * time.Second, Logger: zap.NewNop()})
 	if err != nil {
